@@ -23,7 +23,15 @@ feature  := pep_ix u32(isotope_error) peptide_len charge u32(expmass) u32(calcma
             opt([m (kind charge ordinal u32(intensity) u32(mz_calculated) u32(mz_experimental))…])
 ```
 
-`agree`: exact token equality, except for the two fields downstream of libm calls:
+`scoremany report_psms wide_window opt(tol isolation_window) <the arguments of score1>`: the same through a Scorer
+with the given `report_psms` / `wide_window` (databases of 49..300 peptides inside one precursor window: `trim_hits`
+really truncates, only `report_psms` PSMs come back).
+Every feature carries 4 more tokens after `ms2_intensity`: `rank u64(delta_next) u64(delta_best) missed_cleavages`.
+
+`agree`: every feature the implementation reports is one of the model's candidates (after the model of `trim_hits`)
+with the model's values, no candidate twice, `min(report_psms, #candidates)` of them, ranks/deltas consistent
+(`relClause`) — WHICH of several equally scored candidates is reported/ranked first is C02's subject.
+Token comparison is exact, except for the two fields downstream of libm calls:
 * `hyperscore`: ≤ 4 ulp (f64) for `SageHyperScore` (one `ln` of the intensities + Stirling terms; Lean's
   toolchain ships its own libm). For `OpenMSHyperScore` the code calls `f32::ln_1p`, which core Lean does not
   have; the driver computes `log1p` in f64 and rounds once to f32, so the term may differ by an f32 ulp or two:
@@ -96,13 +104,15 @@ def annToks (a : Ann Float32) : List Tk :=
   [('x', toString (kindNat a.kind)), ('x', toString a.charge), ('x', toString a.ordinal),
    ('x', canonF32 a.intensity), ('x', canonF32 a.mzCalc), ('x', canonF32 a.mzExp)]
 
-def featToks (openms : Bool) (f : Feat Float32 Float) : List Tk :=
+def featToks (openms : Bool) (mc : Nat) (f : Feat Float32 Float) : List Tk :=
   [('x', toString f.pep), ('x', canonF32 f.isotopeError), ('x', toString f.peptideLen), ('x', toString f.charge),
    ('x', canonF32 f.expmass), ('x', canonF32 f.calcmass), ('x', canonF32 f.deltaMass), ('x', canonF32 f.averagePpm),
    (if openms then 'o' else 'h', canonF64 f.hyperscore),
    ('x', toString f.matchedPeaks), ('x', toString f.longestB), ('x', toString f.longestY),
    ('x', canonF32 f.longestYPct), ('x', canonF32 f.matchedIntensityPct), ('x', toString f.scoredCandidates),
-   ('p', canonF64 f.poisson), ('x', canonF32 f.ms2Intensity)] ++
+   ('p', canonF64 f.poisson), ('x', canonF32 f.ms2Intensity),
+   -- rank, delta_next, delta_best: checked relationally on the whole reply (`relClause`), not per feature
+   ('r', "-"), ('r', "-"), ('r', "-"), ('x', toString mc)] ++
   (match f.ann with
    | none => [('x', "0")]
    | some l => [('x', "1"), ('x', toString l.length)] ++ l.flatMap annToks)
@@ -110,7 +120,7 @@ def featToks (openms : Bool) (f : Feat Float32 Float) : List Tk :=
 def absF (x : Float) : Float := if x < 0.0 then -x else x
 
 def tokAgree (cls : Char) (m i : String) : Bool :=
-  if m == i then true else
+  if m == i || cls == 'r' then true else
   match cls, m.toNat?, i.toNat? with
   | 'h', some a, some b =>
     let x := Float.ofBits a.toUInt64; let y := Float.ofBits b.toUInt64
@@ -156,6 +166,12 @@ structure Req where
   maxPc : Nat
   tic : Float32
   peaks : List (Peak Float32)
+  /-- `Scorer::report_psms` (`score1`: 1000, i.e. everything is reported and nothing is trimmed) -/
+  reportPsms : Nat := 1000
+  /-- `Scorer::wide_window` -/
+  wide : Bool := false
+  /-- `Precursor::isolation_window` -/
+  iw : Option (Tol Float32) := none
 
 def allSomeK : List (Option Kind) → Option (List Kind)
   | [] => some []
@@ -215,23 +231,53 @@ def Req.inDomain (r : Req) : Bool :=
 def Req.multiN (r : Req) : Bool := (r.kinds.filter (·.isN)).length > 1
 def Req.multiC (r : Req) : Bool := (r.kinds.filter (fun k => !k.isN)).length > 1
 
-/-- `useSpec = false`: the model (code-mirroring loop, binary search, `Run`);
-    `useSpec = true`: the naive recomputation -/
-def compute (r : Req) (useSpec : Bool) : List (Feat Float32 Float) :=
+/-- `Tolerance * f32` -/
+def tolScale (t : Tol Float32) (c : Float32) : Tol Float32 :=
+  match t with
+  | .ppm lo hi => .ppm (lo * c) (hi * c)
+  | .pct lo hi => .pct (lo * c) (hi * c)
+  | .da lo hi => .da (lo * c) (hi * c)
+
+/-- `peptide.missed_cleavages` as the harness sets it: the number of K/R before the last residue (capped at 255) -/
+def missedCleavages (seq : List UInt8) : Nat :=
+  min 255 ((seq.take (seq.length - 1)).filter (fun b => b == 75 || b == 82)).length
+
+/-- the preliminary search (`initial_hits`): the surviving candidates and the two counters -/
+def search (r : Req) : Hits :=
   let peps := r.raws.map RawPep.toF
+  let monos := peps.map (·.mass)
+  let monoArr := monos.toArray
   let mz := r.precMz - E32.proton
   let fragsOf (i : Nat) : List Float32 :=
     match peps[i]? with
     | none => []
     | some p => (Sage.C09.pepFragments constsF r.kinds r.minIdx i p).map (·.2)
-  let pres := r.charges.flatMap fun z =>
-    prelim E32 r.ftol r.ptol r.peaks z (maxFragmentCharge r.mfcCfg z) (mz * Float32.ofNat z)
-      (isotopes r.isoLo r.isoHi) (peps.map (·.mass)) fragsOf
-  let total := (pres.map (·.matched)).sum
-  let nScored := pres.length
+  let perCharge (z : Nat) : Hits :=
+    let zf := Float32.ofNat z
+    let pm := mz * zf
+    -- wide window: `isolation_window.unwrap_or(Da(-2.4, 2.4)) * charge`
+    let ptol := if r.wide then tolScale (r.iw.getD (.da (-2.4) 2.4)) zf else r.ptol
+    let mfc := maxFragmentCharge r.mfcCfg z
+    Hits.overIsotopes r.reportPsms r.isoLo r.isoHi fun e =>
+      let w := tolBounds E32 ptol (pm - (ofInt E32 e) * E32.neutron)
+      let lr := Sage.C03.binarySearchSlice monoArr w.1 w.2      -- `IndexedDatabase::query`
+      Hits.ofSub r.reportPsms (lr.2 - lr.1 + 1) (prelim E32 r.ftol ptol r.peaks z mfc pm [e] monos fragsOf)
+  let single : Option Nat := if r.wide then none else match r.z, r.overrideZ with
+    | some z, false => some z
+    | _, _ => none
+  Hits.overCharges r.reportPsms single (List.range' r.minPc (r.maxPc + 1 - r.minPc)) perCharge
+
+/-- `useSpec = false`: the model (code-mirroring loop, binary search, `Run`);
+    `useSpec = true`: the naive recomputation.
+    Result: every candidate `build_features` scores and keeps (`min_matched_peaks`), with all columns, sorted by
+    (peptide index, charge, isotope error); `report_psms` of them (the best by hyperscore) are reported. -/
+def compute (r : Req) (useSpec : Bool) : List (Feat Float32 Float) :=
+  let peps := r.raws.map RawPep.toF
+  let hits := search r
+  let total := hits.matchedPeaks
+  let nScored := hits.scoredCandidates
   let peakArr := r.peaks.toArray
-  -- the harness sorts the features by (peptide index, isotope error)
-  let pres := pres.mergeSort (fun a b => a.pep < b.pep || (a.pep == b.pep &&
+  let pres := hits.pos.mergeSort (fun a b => a.pep < b.pep || (a.pep == b.pep &&
     (a.charge < b.charge || (a.charge == b.charge && a.iso ≤ b.iso))))
   pres.filterMap fun pre =>
     match peps[pre.pep]? with
@@ -262,19 +308,16 @@ def compute (r : Req) (useSpec : Bool) : List (Feat Float32 Float) :=
         some (feature E32 pre s n r.precMz p.mass r.tic total nScored)
       else none
 
-def renderFeats (openms : Bool) (fs : List (Feat Float32 Float)) : List Tk :=
-  ('x', toString fs.length) :: fs.flatMap (featToks openms)
-
 def tkString (l : List Tk) : String := " ".intercalate (l.map (·.2))
 
-/-! ### spec verdict on the implementation's features -/
+/-! ### judging the implementation's features against a candidate list (model's or spec's) -/
 
 /-- split the implementation's reply into per-feature token lists (using the known layout) -/
 def splitFeat (toks : List String) : Option (List String × List String) :=
-  -- 17 fixed tokens, then `0` or `1 m (6 tokens)×m`
-  if toks.length < 18 then none else
-  let fixed := toks.take 17
-  let rest := toks.drop 17
+  -- 21 fixed tokens, then `0` or `1 m (6 tokens)×m`
+  if toks.length < 22 then none else
+  let fixed := toks.take 21
+  let rest := toks.drop 21
   match rest with
   | "0" :: tl => some (fixed ++ ["0"], tl)
   | "1" :: m :: tl =>
@@ -294,44 +337,116 @@ def splitFeats : Nat → List String → Option (List (List String))
 def fieldNames : List String :=
   ["peptide_idx", "isotope_error", "peptide_len", "charge", "expmass", "calcmass", "delta_mass", "average_ppm",
    "hyperscore", "matched_peaks", "longest_b", "longest_y", "longest_y_pct", "matched_intensity_pct",
-   "scored_candidates", "poisson", "ms2_intensity"]
+   "candidate_count", "poisson", "ms2_intensity", "rank", "delta_next", "delta_best", "missed_cleavages"]
 
-/-- compare one implementation feature (tokens) with the spec's feature; name of the first bad clause -/
+/-- compare one implementation feature (tokens) with a candidate's feature; name of the first bad clause -/
 def featClause (r : Req) (want : Feat Float32 Float) (got : List String) : Option String :=
-  let wt := featToks r.openms want
-  let skip (_name : String) : Bool := false
+  let mc := missedCleavages ((r.raws.getD want.pep ⟨[], [], none, none, 0⟩).seq)
+  let wt := featToks r.openms mc want
   let rec go : List Tk → List String → Nat → Option String
     | [], [], _ => none
     | (c, m) :: ms, i :: is, k =>
       let name := fieldNames.getD k "fragments"
-      if skip name || tokAgree c m i then go ms is (k + 1) else some name
+      if tokAgree c m i then go ms is (k + 1) else some name
     | _, _, _ => some "fragments"
   go wt got 0
 
-def specVerdict (r : Req) (impl : List String) : String :=
-  if !r.covered || !r.inDomain then "na" else
-  if impl == ["panic"] then "bad:panic" else
+def findCand (cands : List (Feat Float32 Float)) (got : List String) : Option (Feat Float32 Float) :=
+  cands.find? (fun w => some (toString w.pep) == got[0]? && some (canonF32 w.isotopeError) == got[1]? &&
+    some (toString w.charge) == got[3]?)
+
+def f64Tok (t : Option String) : Option Float := (t.bind String.toNat?).map (fun b => Float.ofBits b.toUInt64)
+
+/-- the relational columns: `rank` is a numbering 1..count by non-increasing hyperscore, `delta_best` = best − own,
+    `delta_next` = own − next (the next candidate's hyperscore, reported or not; `0.0` when there is none) — all
+    computed from the implementation's own hyperscores, hence bit-exact; only the hyperscore of an UNREPORTED next
+    candidate is taken from `cands` (allowance 1e-9, or 2e-6 for the OpenMS flavour whose `ln_1p` is emulated) -/
+def relClause (openms : Bool) (cands : List (Feat Float32 Float)) (feats : List (List String)) : Option String :=
+  let rows := feats.filterMap fun g => do
+    let rk ← (g[17]?).bind String.toNat?
+    let h ← f64Tok g[8]?
+    let dn ← f64Tok g[18]?
+    let db ← f64Tok g[19]?
+    pure (rk, h, dn, db, g)
+  if rows.length != feats.length then some "shape" else
+  let sorted := rows.mergeSort (fun a b => a.1 ≤ b.1)
+  if (sorted.map (·.1)) != (List.range' 1 sorted.length) then some "rank" else
+  let hs := sorted.map (·.2.1)
+  if !((hs.zip (hs.drop 1)).all (fun ab => decide (ab.2 ≤ ab.1))) then some "rank_order" else
+  let best := hs.headD 0.0
+  if sorted.any (fun x => x.2.2.2.1.toBits != (best - x.2.1).toBits) then some "delta_best" else
+  let unreported := cands.filter (fun c => !feats.any (fun g => (findCand [c] g).isSome))
+  let lastNext : Option Float :=      -- `none`: no further candidate
+    unreported.foldl (fun acc c => match acc with
+      | none => some c.hyperscore
+      | some m => some (if m < c.hyperscore then c.hyperscore else m)) none
+  let n := sorted.length
+  let bad := (List.range n).any fun i =>
+    match sorted[i]?, sorted[i+1]? with
+    | some x, some y => x.2.2.1.toBits != (x.2.1 - y.2.1).toBits
+    | some x, none =>
+      (match lastNext with
+       | none => x.2.2.1.toBits != (x.2.1 - 0.0).toBits
+       | some m => !(absF (x.2.2.1 - (x.2.1 - m)) ≤ (if openms then 2.0e-6 else 1.0e-9) * (if absF m < 1.0 then 1.0 else absF m)))
+    | none, _ => false
+  if bad then some "delta_next" else none
+
+/-- first failing clause of the implementation's reply w.r.t. the candidate list, `none` = all fine -/
+def judge (r : Req) (cands : List (Feat Float32 Float)) (impl : List String) : Option String :=
+  if impl == ["panic"] then some "panic" else
   match impl with
-  | [] => "bad:shape"
+  | [] => some "shape"
   | cnt :: rest =>
     match cnt.toNat? with
-    | none => "bad:shape"
+    | none => some "shape"
     | some k =>
       match splitFeats k rest with
-      | none => "bad:shape"
+      | none => some "shape"
       | some feats =>
-        let wants := compute r true
-        -- every reported feature must be one the definition yields, with the definition's values
+        -- every reported feature is a candidate the definition yields, with the definition's values
         let bad := feats.findSome? fun got =>
-          match wants.find? (fun w => some (toString w.pep) == got[0]? && some (canonF32 w.isotopeError) == got[1]? &&
-              some (toString w.charge) == got[3]?) with
-          | none => some "unknown_candidate"
+          match findCand cands got with
           | some w => featClause r w got
+          | none =>
+            -- name the column that makes it unknown, when the other two key columns identify a candidate
+            if cands.any (fun w => some (toString w.pep) == got[0]? && some (toString w.charge) == got[3]?) then some "isotope_error"
+            else if cands.any (fun w => some (toString w.pep) == got[0]? && some (canonF32 w.isotopeError) == got[1]?) then some "charge"
+            else some "unknown_candidate"
         match bad with
-        | some c => s!"bad:{c}"
-        | none => "ok"
+        | some c => some c
+        | none =>
+          -- no candidate twice; `report_psms` of them (all, if there are fewer)
+          let keys := feats.map (fun g => (g[0]?, g[1]?, g[3]?))
+          if keys.eraseDups.length != keys.length then some "duplicate_psm" else
+          if k != min r.reportPsms cands.length then some "reported_count" else
+          relClause r.openms cands feats
 
-/-! ### `c04select` -/
+/-- the model's rendering of the features the implementation reported (in the implementation's order) -/
+def renderModel (r : Req) (cands : List (Feat Float32 Float)) (impl : List String) : String :=
+  let want := min r.reportPsms cands.length
+  let feats : List (List String) := match impl with
+    | cnt :: rest => ((cnt.toNat?).bind (fun k => splitFeats k rest)).getD []
+    | [] => []
+  let body := feats.map fun got =>
+    match findCand cands got with
+    | none => "unknown-candidate"
+    | some w =>
+      let mc := missedCleavages ((r.raws.getD w.pep ⟨[], [], none, none, 0⟩).seq)
+      " ".intercalate (((featToks r.openms mc w).zip got).map (fun (tk, g) => if tk.1 == 'r' then g else tk.2))
+  " ".intercalate (toString want :: body)
+
+def specVerdict (r : Req) (impl : List String) : String :=
+  if !r.covered || !r.inDomain then "na" else
+  match judge r (compute r true) impl with
+  | none => "ok"
+  | some c => s!"bad:{c}"
+
+def runScore (r : Req) (impl : List String) : Reply :=
+  if !r.covered then { model := "uncovered", agree := false, spec := "na" } else
+  let cands := compute r false
+  { model := renderModel r cands impl, agree := (judge r cands impl).isNone, spec := specVerdict r impl }
+
+/-! ### ops -/
 
 def handle (op : String) (args impl : List String) : Option Reply :=
   match op with
@@ -357,12 +472,11 @@ def handle (op : String) (args impl : List String) : Option Reply :=
     pure (exact model (" ".intercalate impl) spec)
   | "score1" => do
     let r ← run pReq args
-    if !r.covered then
-      pure { model := "uncovered", agree := false, spec := "na" }
-    else
-    let m := renderFeats r.openms (compute r false)
-    let agree := toksAgree m impl
-    pure { model := tkString m, agree := agree, spec := specVerdict r impl }
+    pure (runScore r impl)
+  | "scoremany" => do
+    let (rp, wide, iw, r) ← run (do
+      let rp ← nat; let w ← bool; let iw ← opt pTol; let r ← pReq; pure (rp, w, iw, r)) args
+    pure (runScore { r with reportPsms := rp, wide := wide, iw := iw } impl)
   | _ => none
 
 end Sage.C04
